@@ -608,7 +608,11 @@ Inductive event :=
 | EEof
 | EGdbMsg (conn_id : str) (thread : Z) (m : pmsg)
 | EGdbDestroy (conn_id : str)
-| EGdbCmd (s : str).
+| EGdbCmd (s : str)
+(* the connection-id interface (ConnectionIDSink) driven directly *)
+| EOpen (conn_id : str) (is_server : option bool)
+| EClose (conn_id : str)
+| ESinkMsg (conn_id : str) (m : pmsg).
 
 (* the whole tool state: Message.base_time (absolute) + everything else (relative times only) *)
 Record top := mkTop { t_base : option Z; t_sess : sess }.
@@ -628,6 +632,16 @@ Definition step (T : top) (e : event) : top * list oline :=
       let '(s1, o) := gdb_message s id t rel m in (mkTop b s1, o)
   | EGdbDestroy id => keep (gdb_destroy s id)
   | EGdbCmd c => keep (gdb_command s c)
+  | EOpen id sv =>
+      match id with
+      | [] => (T, [ORaise AssertionError])
+      | _ => keep (open_conn s id sv)
+      end
+  | EClose id => keep (close_conn s id)
+  | ESinkMsg id m =>
+      let '(b, rel) := rel_time (t_base T) (p_time m) in
+      let '(s1, o, err, _) := conn_message s id rel m in
+      (mkTop b s1, o ++ match err with Some (e, _) => [ORaise e] | None => [] end)
   end.
 
 Fixpoint run (T : top) (es : list event) : top * list (list oline) :=
